@@ -295,7 +295,10 @@ CLAIMS = {
              "and is STRICTLY larger (c16_more_liberal): form feed as whitespace, integers with '+', hex and octal (017 = 15), "
              "decimals like .5 and 007.5, string escapes \\a \\v \\xHH \\UHHHHHHHH \\ooo and raw control characters other than CR/LF - "
              "while 1e5, \\/ and lone surrogates (which encoding/json accepts) are rejected; each form replayed on the real parser "
-             "and on encoding/json. The property speaks of the supported subset, on which both agree. OUTSIDE Lean: that denote "
+             "and on encoding/json. The property speaks of the supported subset, on which both agree. With C02's termination of "
+             "this grammar on EVERY input the DECISION theorem follows (Props/C16D.lean, c16_decides): beyond some fuel Parse "
+             "answers - a node iff the input is in JLang, then the tree of that document with its value, else an error with "
+             "Parse's message. OUTSIDE Lean: that denote "
              "agrees with encoding/json (external library) - checked on every generated document by the differential run with "
              "UseNumber.",
         note="strconv.ParseFloat's acceptance of the decimal lexemes is a hypothesis (a model parameter). -0 is not in the subset. "
